@@ -148,6 +148,11 @@ L1(e) ==
   \* C09: ... and over the whole behaviour no (transaction id, address) pair is used for two requests: the late reply to an expired
   \* request could otherwise not be told from the reply to the new one
   \cup (IF e.tid_reused # <<>> THEN {"C09_TidsNotReused"} ELSE {})
+  \* C01 (readers with a lookup or a put of the same key in flight): a get that joins a running lookup of its target is handed
+  \* every value that lookup has already heard (whatever else it is handed first)
+  \cup (IF e.e = "api" /\ TOpOf[e.call] = "get" /\ e.proj.t[TTargetOf[e.call]].q_on /\ e.proj.t[TTargetOf[e.call]].q_kind = "get"
+           /\ ~(SeqSet(e.proj.t[TTargetOf[e.call]].vals) \subseteq SeqSet(e.proj.got[e.call]))
+        THEN {"C01_JoinerSeesCollected"} ELSE {})
   \* C17: concurrency errors are never produced for immutable puts
   \cup (IF \E c \in SeqSet(e.proj.called) : TOpOf[c] = "put" /\ TItemOf[c].kind = "imm" /\ e.proj.done[c] \in {"NotMostRecent", "CasFailed", "ConflictRisk"}
         THEN {"C17_NeverForOtherKinds"} ELSE {})
